@@ -258,6 +258,7 @@ fn check(ctx: &mut Ctx, c: &Case) {
         Verdict::Deadlock => "deadlock",
         Verdict::HangInDrop => "hang-in-drop",
         Verdict::Livelock => "livelock",
+        Verdict::StuckTask => "stuck-task",
         Verdict::MainPanic(_) => "panic",
         Verdict::Watchdog => "watchdog",
     });
@@ -270,6 +271,7 @@ fn check(ctx: &mut Ctx, c: &Case) {
         Verdict::Deadlock => ctx.violation(format!("C18:hang:{}", crate::run::mode_name(&c.mode)), "the coordinator can never leave its loop (logical deadlock: nothing in flight, all results received, done != total)", c.json()),
         Verdict::HangInDrop => ctx.violation(format!("C18:hang-after-error:{}", crate::run::mode_name(&c.mode)), "after a reported error the remaining workers block forever in the result-channel send while Drop joins the pool: the run never returns", c.json()),
         Verdict::Livelock => ctx.violation(format!("C18:hang:endless-directory-rescan:{}", if c.symlinks.is_empty() { "no-symlink" } else { "symlink-cycle" }), format!("one directory was queued for scanning more than 64 times in a single run (inputs {:?}, recursive {}, symbolic links {:?}): the run never finishes", c.inputs, c.recursive, c.symlinks), c.json()),
+        Verdict::StuckTask => ctx.violation(format!("C18:hang:worker-stuck:{}", crate::run::mode_name(&c.mode)), "a worker task showed no progress for 20 s; the coordinator waits for its result forever", c.json()),
         Verdict::MainPanic(m) => ctx.violation(format!("C18:panic:main:{shape}"), format!("the thread calling Txtpp::run panicked: {m}; {:?}", o.panics), c.json()),
         Verdict::Watchdog => ctx.inconclusive("watchdog expired (not decided)"),
         _ => {}
